@@ -24,6 +24,7 @@ type caseC01 struct {
 	// encodable jump: the compiler may refuse it ("jump too long"), which is
 	// an implementation limit, not an evaluation result
 	NearLimit bool `json:"nearlimit,omitempty"`
+	Nested    int  `json:"nested,omitempty"` // 1: a nested block precedes the expression in the block body
 }
 
 // exprStats walks an expression for the non-trivial rule.
@@ -88,7 +89,12 @@ func (s *exprStats) walk(e *gen.Expr, d int) {
 	s.walk(e.B, d+1)
 }
 
+// nestedBefore is 1 when the case being generated has a nested block in
+// front of the expression under test (shifts its index in the block body).
+var nestedBefore int
+
 func genC01(t *rapid.T) caseC01 {
+	nestedBefore = 0
 	cfg := gen.DefaultCfg()
 	cfg.ExprDepth = 6
 	if thorough() {
@@ -121,6 +127,19 @@ func genC01(t *rapid.T) caseC01 {
 		ty := g.PickType()
 		blk.Body = append(blk.Body, &gen.Stmt{K: "expr", E: &gen.Expr{K: "asg", T: n, A: g.Literal(ty)}})
 		g.SetType(n, ty)
+	}
+	if gen.Chance(t, 30, "nestedbefore") {
+		// a nested block that assigns and reads fields of the same names just
+		// before: the operands of the expression are the outer block's fields
+		inner := &gen.Stmt{K: "def", Name: "u"}
+		for _, n := range []string{"d", "e"} {
+			if gen.Bool(t, "shadowfield") {
+				inner.Body = append(inner.Body, &gen.Stmt{K: "expr", E: &gen.Expr{K: "asg", T: n, A: g.Literal(g.PickType())}})
+			}
+		}
+		inner.Body = append(inner.Body, &gen.Stmt{K: "print", E: &gen.Expr{K: "id", T: gen.Pick(t, "lastread", []string{"d", "e"})}})
+		blk.Body = append(blk.Body, inner)
+		nestedBefore = 1
 	}
 	e := g.Expr("?", cfg.ExprDepth)
 	longOp := ""
@@ -176,13 +195,13 @@ func genC01(t *rapid.T) caseC01 {
 	r := gen.RenderProg(p)
 	lay := gen.GenLayout(t, r.Toks, gen.LayoutOpts{Plain: 85})
 	src, _ := renderChecked(r.Toks, lay)
-	return caseC01{Prog: p, Layout: lay, Src: src, Mode: mode, NearLimit: nearLimit}
+	return caseC01{Prog: p, Layout: lay, Src: src, Mode: mode, NearLimit: nearLimit, Nested: nestedBefore}
 }
 
 // mainExpr finds the expression under test again (for the statistics).
 func (c caseC01) mainExpr() *gen.Expr {
 	blk := c.Prog.Stmts[len(c.Prog.Stmts)-1]
-	s := blk.Body[2]
+	s := blk.Body[2+c.Nested]
 	if c.Mode == "field" {
 		return s.E.A
 	}
